@@ -332,7 +332,11 @@ impl Layout {
                 if rng.chance(deco.odd_comment, 1000) && prev.is_some() {
                     let prev_is_line_comment = prev.is_some_and(|p| p.kind == PieceKind::LineComment);
                     if let Some(p) = prev {
-                        odd_comment_after.push(p.text.to_ascii_lowercase());
+                        let mut w = p.text.to_ascii_lowercase();
+                        if w == "for" && pieces.len() >= 2 && pieces[pieces.len() - 2].text.eq_ignore_ascii_case("helper") {
+                            w = "helper for".to_string();
+                        }
+                        odd_comment_after.push(w);
                     }
                     gaps.push(if prev_is_line_comment { gap.clone() } else { format!("{nl}{cur_indent}      ") });
                     if rng.bool() {
